@@ -73,7 +73,7 @@ def check(sid):
                 res[tier] = {"exit": rc, "wall_s": round(time.time() - t0, 1), "clauses": sorted(set(l.split()[2].rstrip(":") for l in vio)), "first": vio[0][:300] if vio else ""}
                 if rc == 1:
                     # keep the minimised replay next to the seeded change
-                    for l in out.splitlines():
+                    for l in (out.splitlines() if "--no-save" not in sys.argv else []):
                         if l.startswith("VIOLATION property="):
                             rp = l.split("replay=")[1].strip()
                             if os.path.exists(rp):
@@ -84,7 +84,8 @@ def check(sid):
                     res[tier]["tail"] = out[-400:]
             meta["check"] = {"status": "caught" if any(r["exit"] == 1 for r in res.values()) else ("harness-error" if any(r["exit"] == 2 for r in res.values()) else "MISSED"), "runs": res,
                              "how": "registered check commands run with VERIF_REPO pointing at a scratch copy of /repo with patch.diff applied (removed afterwards)"}
-        json.dump(meta, open(os.path.join(d, "meta.json"), "w"), indent=1)
+        if "--no-save" not in sys.argv:
+            json.dump(meta, open(os.path.join(d, "meta.json"), "w"), indent=1)
         return meta
     finally:
         shutil.rmtree(tmp, ignore_errors=True)
